@@ -247,6 +247,7 @@ func checkC01(r *core.Run) {
 	// the execution data handed to tapscript signature checks: the leaf hash is the BIP341 one and stays intact
 	c02LeafHash(r, p, "R-C01-rules")
 	c01WeightBudget(r, p, "R-C01-rules")
+	c01AnnexHash(r, p, "R-C01-rules")
 	c01HashTypeMasks(r, p)
 	c01CastToBool(r, p)
 	c01Total(r, p, ev)
